@@ -11,8 +11,8 @@ class C05(Prop):
     id = "C05"
     title = "5G-AKA: RES* and the NAS key hierarchy equal what the network derives"
     lean_module = "Stgutg.Props.C05"
-    extra_modules = ["Stgutg.Proofs.GenTieKdf"]
-    gen = ["pure-kdf"]
+    extra_modules = ["Stgutg.Proofs.GenTieKdf", "Stgutg.Gen.PureSelftest"]
+    gen = ["pure-kdf", "pure-selftest"]
     # tie by translation: KDFLen regenerated from UeauCommon.go IS the hand model
     theorems = ["Stgutg.Proofs.GenTie.Kdf.KDFLen_eq"] + ["Stgutg.Props.C05." + n for n in [
         "kdf_eq_spec", "kdf_is_hmac_of_concat", "kausf_kseaf_kamf_eq_spec", "algkey_eq_spec",
@@ -26,7 +26,7 @@ class C05(Prop):
             "the RegisterUE serving-network-name expressions (evaluated from the source text) on 2-/3-digit and malformed "
             "MNC/MCC, non-canonical SUPIs, short AMF, and the fatal (os.Exit) inputs in a child process; "
             "non-trivial = ok result of aka_derive*/aka_kamf/aka_algkey/aka_kdf*/aka_snname; distinct by op line")
-    trusted_base = ["TIE BY TRANSLATION (gen pure-kdf, harness/cmd/gen/pure*.go -> lean/Stgutg/Gen/PureKdf.lean, regenerated from the source text on every run): UeauCommon.KDFLen (make, binary.BigEndian.PutUint16, uint16(len)). The theorems GenTie.Kdf.KDFLen_eq prove generated definition = hand model for ALL inputs, so a change of the Go text changes the generated definition and the theorem stops checking, whatever input would show it. Trusted here instead of sampling: the translator's grammar and its runtime Gen/PureRt.lean (Go's fixed-width arithmetic, index / slice panics, value semantics of slices under the translator's no-alias check, go/types constant evaluation); a construct outside the grammar fails closed (TRANSLATOR-FAILED file:line)",
+    trusted_base = ["TIE BY TRANSLATION (gen pure-kdf, harness/cmd/gen/pure*.go -> lean/Stgutg/Gen/PureKdf.lean, regenerated from the source text on every run): UeauCommon.KDFLen (make, binary.BigEndian.PutUint16, uint16(len)). The theorems GenTie.Kdf.KDFLen_eq prove generated definition = hand model for ALL inputs, so a change of the Go text changes the generated definition and the theorem stops checking, whatever input would show it. Trusted here instead of sampling: the translator's grammar and its runtime Gen/PureRt.lean (Go's fixed-width arithmetic, index / slice panics, value semantics of slices under the translator's no-alias check, go/types constant evaluation); a construct outside the grammar fails closed (TRANSLATOR-FAILED file:line); the translator and its runtime are themselves checked against the Go compiler on every run: gen pure-selftest translates harness/cmd/gen/pureselftest/fns.go and writes the results of EXECUTING the compiled functions beside the translation (Gen/PureSelftest.lean: 97 calls incl. wrap-around, MinInt / -1, division by zero, index / slice panics, shadowing, break / continue, receiver mutation, as kernel-checked equalities)",
                     "crypto/aes, crypto/hmac+sha256 are parameters of the theorems (Prims.aes: 16-octet blocks, Prims.hmac: 32-octet "
                     "MAC); Crypto/Aes.lean and Crypto/Sha256.lean instantiate them for the comparator only (FIPS-197, FIPS 180-4, "
                     "RFC 4231, TS 35.208 known answers)",
